@@ -1,6 +1,1434 @@
-//! C12 — stub (not built yet).
+//! C12 — signatures made by the signer verify; the signed octets follow
+//! RFC 4034.
+//!
+//! Sub-checks
+//! * `sign-verify`: generated RRset → library signer (four routes) → checks
+//!   on the RRSIG RR, on the signed octets (independent RFC 4034 §3.1.8.1
+//!   construction + independent `ring::signature` verification), library
+//!   validation after legitimate resolver transformations, and failure of
+//!   validation after every single alteration.
+//! * `keytag-ds`: generated DNSKEY RDATA → `Dnskey::key_tag`,
+//!   `DnskeyExt::digest` against the reference computations.
+//! * `fixtures`: sweep over the fixture key files (key tags vs file names,
+//!   DS digests vs the `.ds` files written by the key tool, loadability,
+//!   reference self-test against RFC vectors).
+mod keys;
+mod reference;
+
 use crate::engine::*;
+use crate::gen::message as gm;
+use crate::gen::name::{self as gn, Labels};
+use crate::gen::rdata as grd;
+use crate::gen::*;
+use crate::refimpl::rdata as rr;
+use crate::refimpl::serial as rs;
+use crate::{vensure, vfail};
+use arbitrary::Unstructured;
+use bytes::Bytes;
+use domain::base::iana::{DigestAlgorithm, Rtype, SecurityAlgorithm};
+use domain::base::name::{FlattenInto, ParsedName, ToName};
+use domain::base::{Message, Name, Record};
+use domain::crypto::common::AlgorithmError;
+use domain::crypto::sign::{KeyPair, SignError, SignRaw, Signature};
+use domain::dnssec::sign::error::SigningError;
+use domain::dnssec::sign::keys::signingkey::SigningKey;
+use domain::dnssec::sign::records::{Rrset, SortedRecords};
+use domain::dnssec::sign::signatures::rrsigs::{sign_rrset, sign_sorted_rrset_in, sign_sorted_zone_records, GenerateRrsigConfig};
+use domain::dnssec::validator::base::{DnskeyExt, RrsigExt};
+use domain::rdata::dnssec::Timestamp;
+use domain::rdata::{Dnskey, Rrsig, ZoneRecordData};
+use reference as rf;
+use std::cmp::Ordering;
+use std::collections::BTreeMap;
+
+type PN = ParsedName<Bytes>;
+type NB = Name<Bytes>;
+type RecP = Record<PN, ZoneRecordData<Bytes, PN>>;
+type RecF = Record<NB, ZoneRecordData<Bytes, NB>>;
+
+//------------ wire records, messages ------------------------------------------------
+
+#[derive(Clone, Debug, PartialEq, Eq, Hash)]
+struct WireRR {
+    owner: Labels,
+    rtype: u16,
+    class: u16,
+    ttl: u32,
+    rdata: Vec<u8>,
+}
+
+impl WireRR {
+    fn rr(&self) -> rf::RR {
+        rf::RR { owner: self.owner.clone(), rtype: self.rtype, class: self.class, rdata: self.rdata.clone() }
+    }
+}
+
+/// A response-like message: optional question, the records in the answer
+/// section. Returns (octets, number of compression pointers written).
+fn build_msg(u: &mut Unstructured, q: Option<&Labels>, rrs: &[WireRR], compress: bool) -> (Vec<u8>, usize) {
+    let mut w = gm::Writer { buf: vec![0u8; 12], seen: vec![], layout: gm::Layout::default() };
+    w.buf[2] = 0x84;
+    if let Some(q) = q {
+        w.name(u, q, compress);
+        w.buf.extend_from_slice(&rrs.first().map(|r| r.rtype).unwrap_or(1).to_be_bytes());
+        w.buf.extend_from_slice(&rrs.first().map(|r| r.class).unwrap_or(1).to_be_bytes());
+        w.buf[5] = 1;
+    }
+    for r in rrs {
+        w.name(u, &r.owner, compress);
+        w.buf.extend_from_slice(&r.rtype.to_be_bytes());
+        w.buf.extend_from_slice(&r.class.to_be_bytes());
+        w.buf.extend_from_slice(&r.ttl.to_be_bytes());
+        w.rdata(u, r.rtype, &r.rdata, compress, false);
+    }
+    w.buf[6..8].copy_from_slice(&(rrs.len() as u16).to_be_bytes());
+    let p = w.layout.pointer_offsets.len();
+    (w.buf, p)
+}
+
+struct Parsed {
+    recs: Vec<RecP>,
+    sigs: Vec<Record<PN, Rrsig<Bytes, PN>>>,
+}
+
+/// Parses the answer section with the library. RRSIG records are returned
+/// separately when `split_sigs`.
+fn parse_msg(bytes: Vec<u8>, split_sigs: bool) -> Result<Parsed, String> {
+    let msg = Message::from_octets(Bytes::from(bytes)).map_err(|e| format!("Message::from_octets: {e}"))?;
+    let mut out = Parsed { recs: vec![], sigs: vec![] };
+    let ans = msg.answer().map_err(|e| format!("answer(): {e}"))?;
+    for (i, r) in ans.enumerate() {
+        let r = r.map_err(|e| format!("record {i}: {e}"))?;
+        if split_sigs && r.rtype() == Rtype::RRSIG {
+            match r.into_record::<Rrsig<Bytes, PN>>() {
+                Ok(Some(x)) => out.sigs.push(x),
+                Ok(None) => return Err(format!("record {i}: RRSIG not parsed as RRSIG")),
+                Err(e) => return Err(format!("record {i} (RRSIG): {e}")),
+            }
+        } else {
+            match r.into_record::<ZoneRecordData<Bytes, PN>>() {
+                Ok(Some(x)) => out.recs.push(x),
+                Ok(None) => return Err(format!("record {i}: not taken by ZoneRecordData")),
+                Err(e) => return Err(format!("record {i}: {e}")),
+            }
+        }
+    }
+    Ok(out)
+}
+
+fn flatten(recs: &[RecP]) -> Vec<RecF> {
+    recs.iter().cloned().map(|r| r.flatten_into()).collect()
+}
+
+//------------ keys ---------------------------------------------------------------------
+
+struct CaseKey {
+    idx: usize,
+    alg: u8,
+    flags: u16,
+    pubkey: Vec<u8>,
+    /// Some: a key pair made for this case (custom flags); None: cached pair
+    own: Option<KeyPair>,
+}
+
+impl CaseKey {
+    fn pair(&self) -> &KeyPair {
+        match &self.own {
+            Some(p) => p,
+            None => keys::loaded()[self.idx].pair.as_ref().expect("signing fixture loads"),
+        }
+    }
+    fn rdata(&self) -> Vec<u8> {
+        rf::dnskey_rdata(self.flags, 3, self.alg, &self.pubkey)
+    }
+}
+
+/// SigningKey wants to own its `SignRaw`; the fixture key pairs are shared.
+#[derive(Debug)]
+struct KRef<'a>(&'a KeyPair);
+impl SignRaw for KRef<'_> {
+    fn algorithm(&self) -> SecurityAlgorithm {
+        self.0.algorithm()
+    }
+    fn dnskey(&self) -> Dnskey<Vec<u8>> {
+        self.0.dnskey()
+    }
+    fn sign_raw(&self, data: &[u8]) -> Result<Signature, SignError> {
+        self.0.sign_raw(data)
+    }
+}
+
+fn alg_of(a: u8) -> SecurityAlgorithm {
+    SecurityAlgorithm::from_int(a)
+}
+
+//------------ case -------------------------------------------------------------------------
+
+#[derive(Clone, Copy, Debug, PartialEq, Eq, Hash)]
+enum Route {
+    SignRrset,
+    SortedIn,
+    SortedRecords,
+    Zone,
+}
+
+#[derive(Debug, Hash)]
+struct Case {
+    key_idx: usize,
+    custom_flags: Option<u16>,
+    signer: Labels,
+    owner: Labels,
+    owner_kind: &'static str,
+    rtype: u16,
+    class: u16,
+    ttl: u32,
+    rdatas: Vec<Vec<u8>>,
+    inc: u32,
+    exp: u32,
+    route: Route,
+    parsed_input: bool,
+    /// which resolver-side transformations to apply (bit mask)
+    tmask: u8,
+    /// kinds of the alterations to try afterwards
+    alts: Vec<u8>,
+    /// seed of the byte stream that drives the details of what happens
+    /// after the case is fixed (shuffles, case flips, bit positions)
+    tseed: u64,
+}
+
+fn apex(u: &mut Unstructured) -> Labels {
+    let l: Labels = match pick(u, 8) {
+        0 => vec![],
+        1 | 2 => vec![b"example".to_vec()],
+        3 => vec![b"Example".to_vec(), b"COM".to_vec()],
+        4 => vec![b"test".to_vec()],
+        5 => {
+            let n = 2 + pick(u, 60);
+            gn::name_with_len(u, n, false)
+        }
+        _ => {
+            let n = 2 + pick(u, 24);
+            gn::name_with_len(u, n, true)
+        }
+    };
+    if flag(u) { gn::swap_case(&l, u) } else { l }
+}
+
+fn plain_label(u: &mut Unstructured) -> Vec<u8> {
+    let n = 1 + pick(u, 6);
+    (0..n).map(|_| gn::label_byte(u, true)).collect()
+}
+
+/// Owner of the RRset relative to the apex. Returns (owner, kind).
+fn owner(u: &mut Unstructured, apex: &Labels, kind: usize) -> (Labels, &'static str) {
+    let room = |l: &Labels| 255usize.saturating_sub(gn::wire_len(l));
+    let mut o = apex.clone();
+    let kind = match kind {
+        0 => "apex",
+        1 | 2 | 3 => {
+            for _ in 0..1 + pick(u, 3) {
+                if room(&o) >= 8 && o.len() < 120 {
+                    let l = if chance(u, 60) { gn::label(u, 7, false) } else { plain_label(u) };
+                    o.insert(0, l);
+                }
+            }
+            "child"
+        }
+        4 | 5 | 6 => {
+            // wildcard owner *.x.apex (0..2 labels between)
+            for _ in 0..pick(u, 3) {
+                if room(&o) >= 10 && o.len() < 120 {
+                    o.insert(0, plain_label(u));
+                }
+            }
+            if room(&o) >= 2 && o.len() < 126 {
+                o.insert(0, b"*".to_vec());
+                "wildcard"
+            } else {
+                "apex"
+            }
+        }
+        7 => {
+            o = vec![];
+            "root"
+        }
+        8 => {
+            // as many labels as fit (up to 127)
+            while room(&o) >= 2 && o.len() < 127 {
+                let b = gn::label_byte(u, true);
+                o.insert(0, vec![b]);
+            }
+            if flag(u) && !o.is_empty() && o.len() > apex.len() {
+                o[0] = b"*".to_vec();
+                "wildcard-127"
+            } else {
+                "deep-127"
+            }
+        }
+        9 => {
+            // asterisk that is not a wildcard label: inner, or part of a label
+            if room(&o) >= 12 && o.len() < 120 {
+                match pick(u, 3) {
+                    0 => {
+                        o.insert(0, b"*".to_vec());
+                        o.insert(0, plain_label(u));
+                    }
+                    1 => o.insert(0, b"**".to_vec()),
+                    _ => o.insert(0, b"*a".to_vec()),
+                }
+            }
+            "asterisk-not-wildcard"
+        }
+        10 => {
+            o = gn::name(u, false);
+            "unrelated"
+        }
+        _ => {
+            o = gn::swap_case(&o, u);
+            if room(&o) >= 8 && o.len() < 120 {
+                o.insert(0, gn::swap_case(&vec![b"MiXeD".to_vec()], u).remove(0));
+            }
+            "mixed-case"
+        }
+    };
+    (o, kind)
+}
+
+fn timestamps(u: &mut Unstructured) -> (u32, u32) {
+    let inc = match pick(u, 6) {
+        0 => [0u32, 1, 0x7FFF_FFFF, 0x8000_0000, 0xFFFF_FFFF, 0xFFFF_0000, 1_700_000_000][pick(u, 7)],
+        1 => 0xFFFF_FFFFu32.wrapping_sub(u32_(u) % 100_000),
+        _ => u32_(u),
+    };
+    let d = match pick(u, 14) {
+        0 => 0u32,
+        1 => 1,
+        2 => 0x7FFF_FFFF,
+        3 => 0x8000_0000,
+        4 => 0x8000_0001,
+        5 => 0xFFFF_FFFF,
+        6 => u32_(u),
+        7..=9 => 86400 * (1 + u32_(u) % 60),
+        _ => u32_(u) >> 1,
+    };
+    (inc, inc.wrapping_add(d))
+}
+
+fn has_upper_embedded(rtype: u16, rd: &[u8]) -> bool {
+    rr::name_spans(rtype, rd).iter().any(|&(off, len, _, lower)| lower && rd[off..off + len].iter().any(|b| b.is_ascii_uppercase()))
+}
+
+/// Key under which two RDATA are the same record in the DNS sense
+/// (RFC 2181 5: same data; names compare case-insensitively, RFC 4343): all
+/// embedded names folded, also those the DNSSEC canonical form leaves alone
+/// (NSEC next name, SVCB target, IPSECKEY gateway). Records that differ under
+/// this key also differ in canonical form.
+fn dns_eq_key(rtype: u16, rd: &[u8]) -> Vec<u8> {
+    let mut out = rd.to_vec();
+    for (off, len, _, _) in rr::name_spans(rtype, rd) {
+        // length octets are <= 63 and never in the range of upper-case letters
+        out[off..off + len].make_ascii_lowercase();
+    }
+    out
+}
+
+/// Expands a seed into a byte stream (xorshift64*); seed 0 gives zeros, so
+/// an exhausted input still selects the first alternative everywhere.
+fn expand(seed: u64, n: usize) -> Vec<u8> {
+    let mut x = seed;
+    let mut out = Vec::with_capacity(n);
+    while out.len() < n {
+        x ^= x >> 12;
+        x ^= x << 25;
+        x ^= x >> 27;
+        out.extend_from_slice(&x.wrapping_mul(0x2545_F491_4F6C_DD1D).to_le_bytes());
+    }
+    out
+}
+
+fn decode_case(u: &mut Unstructured, thorough: bool) -> Case {
+    // All small choices first, the variable-length material (names, RDATA)
+    // last, so that short inputs still vary every dimension.
+    let tmask = byte(u);
+    let n_alt = pick(u, 4);
+    let alts: Vec<u8> = (0..n_alt).map(|_| byte(u)).collect();
+    let tseed = u64_(u);
+    let dseed = u64_(u);
+    let sub = |i: u64| if dseed == 0 { 0 } else { fnv(&(dseed, i)) };
+    // weights: Ed25519 38 %, P-256 25 %, P-384 15 %, RSASHA256 11 %, RSASHA512 11 %
+    let key_idx = match pick(u, 100) {
+        0..=37 => 0,
+        38..=62 => 1,
+        63..=77 => 2,
+        78..=88 => 3,
+        _ => 4,
+    };
+    let route = match pick(u, 10) {
+        0..=3 => Route::SignRrset,
+        4..=6 => Route::SortedIn,
+        7 | 8 => Route::SortedRecords,
+        _ => Route::Zone,
+    };
+    let parsed_input = flag(u);
+    let okind = pick(u, 12);
+    let mut rtype = grd::rtype(u, true);
+    if rtype == rr::RRSIG && !chance(u, 96) {
+        // keep RRSIG RRsets (refusal path) at a few percent overall
+        rtype = rr::A;
+    }
+    let n = match pick(u, 10) {
+        0..=2 => 1,
+        3..=5 => 2,
+        6 => 3,
+        _ => 1 + pick(u, if thorough { 24 } else { 8 }),
+    };
+    let custom_flags = if key_idx < 3 && chance(u, 70) { Some(if flag(u) { [0u16, 256, 257, 385, 0xFFFF, 0x8000][pick(u, 6)] } else { u16_(u) }) } else { None };
+    let class = gm::class(u);
+    let ttl = gm::ttl(u);
+    let (inc, exp) = timestamps(u);
+    let signer = apex(u);
+    let (owner, owner_kind) = owner(u, &signer, okind);
+    // the name pool and every record's RDATA come from their own expanded
+    // streams (seeds derived from 8 early input octets): detail without long inputs; a zero seed
+    // gives the simplest value
+    let pseed = sub(1000);
+    let pb = expand(pseed, 512);
+    let mut pu = Unstructured::new(&pb);
+    let plain_pool = flag(&mut pu);
+    let mut pool = gn::pool(&mut pu, 3, plain_pool);
+    pool.push(signer.clone());
+    pool.push(owner.clone());
+    pool.push(gn::swap_case(&owner, &mut pu));
+    pool.push(vec![b"MAIL".to_vec(), b"Example".to_vec()]);
+    let mut rdatas: Vec<Vec<u8>> = vec![];
+    let mut canon: Vec<Vec<u8>> = vec![];
+    for i in 0..n {
+        let rseed = sub(i as u64);
+        let rb = expand(rseed, 4096);
+        let mut ru = Unstructured::new(&rb);
+        let rd = grd::rdata(&mut ru, rtype, &pool, grd::Opts { plain_names: false, max_blob: if thorough { 300 } else { 48 } });
+        if rr::canonical_rdata(rtype, &rd).is_ok() {
+            let c = dns_eq_key(rtype, &rd);
+            if !canon.contains(&c) {
+                canon.push(c);
+                rdatas.push(rd);
+            }
+        }
+    }
+    Case { key_idx, custom_flags, signer, owner, owner_kind, rtype, class, ttl, rdatas, inc, exp, route, parsed_input, tmask, alts, tseed }
+}
+
+fn show_case(c: &Case) -> String {
+    format!(
+        "key={} flags={:?} signer={} owner={} ({}) {} class={} ttl={} n={} inc={} exp={} route={:?} parsed_input={} tmask={:#010b} alts={:?}",
+        keys::FIXTURES[c.key_idx].name,
+        c.custom_flags,
+        gn::show(&c.signer),
+        gn::show(&c.owner),
+        c.owner_kind,
+        rr::mnemonic(c.rtype),
+        c.class,
+        c.ttl,
+        c.rdatas.len(),
+        c.inc,
+        c.exp,
+        c.route,
+        c.parsed_input,
+        c.tmask,
+        c.alts
+    )
+}
+
+//------------ signing ------------------------------------------------------------------------
+
+/// What the signer returned, in plain values.
+#[derive(Clone, Debug)]
+struct SigOut {
+    owner: Labels,
+    class: u16,
+    ttl: u32,
+    f: rf::SigFields,
+    sig: Vec<u8>,
+    /// signed_data + verify_signed_data with the very objects the signer got
+    /// and returned
+    identity_buf: Vec<u8>,
+    identity_verify: Result<(), AlgorithmError>,
+}
+
+fn sig_out<N: ToName, TN: ToName>(r: &Record<N, Rrsig<Bytes, TN>>) -> (Labels, u16, u32, rf::SigFields, Vec<u8>) {
+    let d = r.data();
+    (
+        gn::from_name(r.owner()),
+        r.class().to_int(),
+        r.ttl().as_secs(),
+        rf::SigFields {
+            type_covered: d.type_covered().to_int(),
+            alg: d.algorithm().to_int(),
+            labels: d.labels(),
+            orig_ttl: d.original_ttl().as_secs(),
+            exp: d.expiration().into_int(),
+            inc: d.inception().into_int(),
+            key_tag: d.key_tag(),
+            signer: gn::from_name(d.signer_name()),
+        },
+        d.signature().as_ref().to_vec(),
+    )
+}
+
+/// Signs `recs` (already in the order the route wants) with
+/// sign_rrset / sign_sorted_rrset_in and validates with the same objects.
+macro_rules! sign_direct {
+    ($recs:expr, $key:expr, $dnskey:expr, $inc:expr, $exp:expr, $sorted_in:expr, $scratch:expr) => {{
+        let recs = $recs;
+        let rrset = Rrset::new_from_owned(&recs[..]).expect("non-empty");
+        let res = if $sorted_in { sign_sorted_rrset_in($key, &rrset, $inc, $exp, $scratch) } else { sign_rrset($key, &rrset, $inc, $exp) };
+        res.map(|rec| {
+            let (owner, class, ttl, f, sig) = sig_out(&rec);
+            let mut buf: Vec<u8> = vec![];
+            let mut refs: Vec<_> = recs.iter().collect();
+            rec.data().signed_data(&mut buf, &mut refs[..]).expect("Vec never fails");
+            let v = rec.data().verify_signed_data($dnskey, &buf);
+            SigOut { owner, class, ttl, f, sig, identity_buf: buf, identity_verify: v }
+        })
+    }};
+}
+
+fn err_kind(e: &SigningError) -> &'static str {
+    match e {
+        SigningError::RrsigRrsMustNotBeSigned => "RrsigRrsMustNotBeSigned",
+        SigningError::InvalidSignatureValidityPeriod(..) => "InvalidSignatureValidityPeriod",
+        SigningError::OutOfMemory => "OutOfMemory",
+        SigningError::SigningError(_) => "SigningError",
+        SigningError::MultipleTtlValues => "MultipleTtlValues",
+        SigningError::EmptyRecordSlice => "EmptyRecordSlice",
+        _ => "other",
+    }
+}
+
+//------------ library validation of plain values -------------------------------------------------
+
+#[derive(Clone, Debug)]
+struct SigVal {
+    f: rf::SigFields,
+    sig: Vec<u8>,
+}
+
+struct LibOutcome {
+    buf: Vec<u8>,
+    verify: Result<(), AlgorithmError>,
+    pointers: usize,
+    closest: Vec<Option<Labels>>,
+}
+
+/// Runs the library's validation primitives on a received RRset + RRSIG:
+/// everything goes through a message (optionally compressed) and is parsed
+/// by the library; `parsed_form` selects ParsedName inputs vs flat names.
+/// Err(text) = the library's parser refused the message (not a validation
+/// outcome).
+fn lib_validate(u: &mut Unstructured, rrs: &[WireRR], sv: &SigVal, sig_owner: &Labels, dnskey: &Dnskey<Vec<u8>>, compress: bool, parsed_form: bool) -> Result<LibOutcome, String> {
+    let mut all: Vec<WireRR> = rrs.to_vec();
+    let mut sigrd = vec![];
+    sigrd.extend_from_slice(&sv.f.type_covered.to_be_bytes());
+    sigrd.push(sv.f.alg);
+    sigrd.push(sv.f.labels);
+    sigrd.extend_from_slice(&sv.f.orig_ttl.to_be_bytes());
+    sigrd.extend_from_slice(&sv.f.exp.to_be_bytes());
+    sigrd.extend_from_slice(&sv.f.inc.to_be_bytes());
+    sigrd.extend_from_slice(&sv.f.key_tag.to_be_bytes());
+    sigrd.extend_from_slice(&gn::to_wire(&sv.f.signer));
+    sigrd.extend_from_slice(&sv.sig);
+    let first = rrs.first();
+    all.push(WireRR { owner: sig_owner.clone(), rtype: rr::RRSIG, class: first.map(|r| r.class).unwrap_or(1), ttl: first.map(|r| r.ttl).unwrap_or(0), rdata: sigrd });
+    let (bytes, pointers) = build_msg(u, Some(sig_owner), &all, compress);
+    let p = parse_msg(bytes, true)?;
+    if p.sigs.len() != 1 || p.recs.len() != rrs.len() {
+        return Err(format!("parsed {} records and {} RRSIGs, wrote {} and 1", p.recs.len(), p.sigs.len(), rrs.len()));
+    }
+    let sig = &p.sigs[0];
+    let mut buf: Vec<u8> = vec![];
+    let (verify, closest);
+    if parsed_form {
+        let mut refs: Vec<&RecP> = p.recs.iter().collect();
+        sig.data().signed_data(&mut buf, &mut refs[..]).expect("Vec never fails");
+        verify = sig.data().verify_signed_data(dnskey, &buf);
+        closest = p.recs.iter().map(|r| sig.data().wildcard_closest_encloser(r).map(|n| gn::from_name(&n))).collect();
+    } else {
+        let mut flat = flatten(&p.recs);
+        let fsig: Record<NB, Rrsig<Bytes, NB>> = sig.clone().flatten_into();
+        fsig.data().signed_data(&mut buf, &mut flat[..]).expect("Vec never fails");
+        verify = fsig.data().verify_signed_data(dnskey, &buf);
+        closest = flat.iter().map(|r| fsig.data().wildcard_closest_encloser(r).map(|n| gn::from_name(&n))).collect();
+    }
+    Ok(LibOutcome { buf, verify, pointers, closest })
+}
+
+//------------ transformations ----------------------------------------------------------------------
+
+fn swap_case_embedded(u: &mut Unstructured, rtype: u16, rd: &[u8]) -> Vec<u8> {
+    let mut out = rd.to_vec();
+    for (off, len, _, lower) in rr::name_spans(rtype, rd) {
+        if !lower {
+            continue;
+        }
+        let mut i = off;
+        while i < off + len {
+            let n = rd[i] as usize;
+            if n == 0 || n > 63 {
+                break;
+            }
+            for j in i + 1..(i + 1 + n).min(off + len) {
+                if out[j].is_ascii_alphabetic() && flag(u) {
+                    out[j] ^= 0x20;
+                }
+            }
+            i += 1 + n;
+        }
+    }
+    out
+}
+
+fn is_wildcard(owner: &Labels) -> bool {
+    owner.first().map(|l| l.as_slice() == b"*").unwrap_or(false)
+}
+
+//------------ the main sub-check -----------------------------------------------------------------------
+
+fn run_sign(data: &[u8], ctx: &mut Ctx) -> CaseResult {
+    let mut u = Unstructured::new(data);
+    let u = &mut u;
+    let case = decode_case(u, ctx.thorough);
+    let c = &case;
+    let tbuf = expand(c.tseed, 4096);
+    let mut tu = Unstructured::new(&tbuf);
+    let u = &mut tu;
+    ctx.sample(|| show_case(c));
+    let lk = &keys::loaded()[c.key_idx];
+    vensure!(lk.pair.is_some(), "keys:fixture-not-loadable", "{}: {:?}", lk.fx.name, lk.pair_err);
+    // --- key
+    let flags = c.custom_flags.unwrap_or(lk.kf.flags);
+    let own = match c.custom_flags {
+        Some(fl) => {
+            let pk = Dnskey::new(fl, 3, alg_of(lk.kf.alg), lk.kf.key.clone()).expect("short key");
+            match keys::load_pair(lk.fx, &pk) {
+                Ok(p) => Some(p),
+                Err(e) => vfail!("keys:from_bytes-refuses-other-flags", "{}: flags {fl}: {e}", lk.fx.name),
+            }
+        }
+        None => None,
+    };
+    let ck = CaseKey { idx: c.key_idx, alg: lk.kf.alg, flags, pubkey: lk.kf.key.clone(), own };
+    ctx.class(format!("alg:{}", ck.alg));
+    let dnskey = ck.pair().dnskey();
+    let want_tag = rf::key_tag(&ck.rdata()).expect("not algorithm 1");
+    vensure!(dnskey.flags() == flags && dnskey.protocol() == 3 && dnskey.algorithm().to_int() == ck.alg && dnskey.public_key().as_slice() == &ck.pubkey[..], "keys:dnskey-of-keypair-differs-from-key-file", "{}: KeyPair::dnskey() = {dnskey:?}", lk.fx.name);
+    vensure!(dnskey.key_tag() == want_tag, "keytag:differs-from-appendix-b", "{} flags {flags}: key_tag() = {}, Appendix B = {want_tag}", lk.fx.name, dnskey.key_tag());
+    let skey: SigningKey<Bytes, KRef> = SigningKey::new(gn::to_name_bytes(&c.signer), flags, KRef(ck.pair()));
+    vensure!(skey.algorithm().to_int() == ck.alg && skey.dnskey() == dnskey && skey.owner().as_slice() == &gn::to_wire(&c.signer)[..], "keys:signingkey-accessors", "SigningKey accessors");
+
+    // --- the RRset as the signer gets it
+    let mut base: Vec<WireRR> = c.rdatas.iter().map(|rd| WireRR { owner: c.owner.clone(), rtype: c.rtype, class: c.class, ttl: c.ttl, rdata: rd.clone() }).collect();
+    if base.is_empty() {
+        ctx.class("empty-after-dedup");
+        return Ok(());
+    }
+    // owner case may differ between the records of an RRset
+    if chance(u, 50) {
+        for r in base.iter_mut().skip(1) {
+            r.owner = gn::swap_case(&r.owner, u);
+        }
+        ctx.class("sign:owner-case-varies-between-records");
+    }
+    let distinct = base.clone();
+    let mut dup_added = false;
+    if c.route == Route::SortedRecords || c.route == Route::Zone {
+        // duplicates (exact and differing only in case that the canonical
+        // form folds): the sorted container drops them (RFC 2181 §5,
+        // RFC 4034 §6.3)
+        for i in 0..base.len().min(3) {
+            if chance(u, 110) {
+                let mut d = distinct[i].clone();
+                if flag(u) {
+                    d.owner = gn::swap_case(&d.owner, u);
+                    d.rdata = swap_case_embedded(u, d.rtype, &d.rdata);
+                }
+                base.push(d);
+                dup_added = true;
+            }
+        }
+        if dup_added {
+            ctx.class("sign:duplicates-given-to-SortedRecords");
+        }
+    }
+    // order in which the signer gets them
+    match c.route {
+        Route::SortedIn => {
+            // precondition: canonical order (reference §6.3 order)
+            let mut keyed: Vec<(Vec<u8>, WireRR)> = base.iter().map(|r| (rr::canonical_rdata(r.rtype, &r.rdata).unwrap(), r.clone())).collect();
+            keyed.sort_by(|a, b| a.0.cmp(&b.0));
+            base = keyed.into_iter().map(|x| x.1).collect();
+        }
+        _ => {
+            // any order
+            for i in (1..base.len()).rev() {
+                let j = pick(u, i + 1);
+                base.swap(i, j);
+            }
+        }
+    }
+    let compress_in = c.parsed_input && flag(u);
+    let with_q = flag(u);
+    let (bytes, _) = build_msg(u, if with_q { Some(&c.signer) } else { None }, &base, compress_in);
+    let parsed = match parse_msg(bytes, false) {
+        Ok(p) => p,
+        Err(e) => {
+            // the library's parser refuses RDATA the generator considers
+            // valid: a matter for C05, not a signing outcome
+            ctx.class(format!("lib-parser-refuses-generated:{}", rr::mnemonic(c.rtype)));
+            let _ = e;
+            return Ok(());
+        }
+    };
+    vensure!(parsed.recs.len() == base.len(), "selfcheck:parse-count", "parsed {} of {}", parsed.recs.len(), base.len());
+    ctx.class(format!("type:{}", rr::mnemonic(c.rtype)));
+    ctx.class(format!("owner:{}", c.owner_kind));
+    ctx.class(format!("route:{:?}", c.route));
+    ctx.class(if c.parsed_input { "sign-input:ParsedName" } else { "sign-input:flat" });
+    ctx.class(format!("records:{}", distinct.len().min(4)));
+    let (inc, exp) = (Timestamp::from(c.inc), Timestamp::from(c.exp));
+
+    // --- sign
+    let mut scratch: Vec<u8> = (0..pick(u, 40)).map(|_| byte(u)).collect();
+    let flat = flatten(&parsed.recs);
+    let result: Result<Option<SigOut>, SigningError> = match c.route {
+        Route::SignRrset | Route::SortedIn => {
+            let si = c.route == Route::SortedIn;
+            if c.parsed_input {
+                sign_direct!(parsed.recs.clone(), &skey, &dnskey, inc, exp, si, &mut scratch).map(Some)
+            } else {
+                sign_direct!(flat.clone(), &skey, &dnskey, inc, exp, si, &mut scratch).map(Some)
+            }
+        }
+        Route::SortedRecords => {
+            let sr: SortedRecords<NB, ZoneRecordData<Bytes, NB>> = SortedRecords::from(flat.clone());
+            let sets: Vec<_> = sr.rrsets().collect();
+            vensure!(sets.len() == 1, "sortedrecords:one-rrset-split", "records of one owner/type/class came back as {} RRsets", sets.len());
+            let set = &sets[0];
+            vensure!(set.len() <= distinct.len(), "sortedrecords:duplicates-kept", "{} distinct records (canonical form) given {} times, SortedRecords keeps {}", distinct.len(), base.len(), set.len());
+            vensure!(set.len() == distinct.len(), "sortedrecords:distinct-record-dropped", "{} distinct records, SortedRecords keeps {}", distinct.len(), set.len());
+            let recs: Vec<RecF> = set.iter().cloned().collect();
+            sign_direct!(recs, &skey, &dnskey, inc, exp, true, &mut scratch).map(Some)
+        }
+        Route::Zone => {
+            let sr: SortedRecords<NB, ZoneRecordData<Bytes, NB>> = SortedRecords::from(flat.clone());
+            let apex = gn::to_name_bytes(&c.signer);
+            let cfg = GenerateRrsigConfig::new(inc, exp);
+            match sign_sorted_zone_records(&apex, sr.owner_rrs(), &[&skey], &cfg) {
+                Err(e) => Err(e),
+                Ok(v) => {
+                    // what RFC 4035 §2.2 and the function's documentation
+                    // say about which RRsets get a signature
+                    let lo = gn::lower(&c.owner);
+                    let la = gn::lower(&c.signer);
+                    let in_zone = lo.len() >= la.len() && lo[lo.len() - la.len()..] == la[..];
+                    let at_apex = lo == la;
+                    let t = c.rtype;
+                    let plain = in_zone && t != rr::RRSIG && t != rr::NS && !(at_apex && (t == rr::DNSKEY || t == rr::CDS || t == rr::CDNSKEY));
+                    if plain {
+                        vensure!(v.len() == 1, "zone:rrset-not-signed-once", "{} RRSIGs for one authoritative RRset", v.len());
+                    }
+                    if !in_zone || t == rr::RRSIG {
+                        vensure!(v.is_empty(), "zone:signed-what-must-not-be-signed", "{} RRSIGs (in_zone={in_zone}, type {})", v.len(), rr::mnemonic(t));
+                    }
+                    vensure!(v.len() <= 1, "zone:rrset-not-signed-once", "{} RRSIGs for one RRset and one key", v.len());
+                    match v.into_iter().next() {
+                        None => Ok(None),
+                        Some(rec) => {
+                            let (owner, class, ttl, f, sig) = sig_out(&rec);
+                            let recs: Vec<RecF> = sr.iter().cloned().collect();
+                            let mut buf: Vec<u8> = vec![];
+                            let mut refs: Vec<_> = recs.iter().collect();
+                            rec.data().signed_data(&mut buf, &mut refs[..]).expect("Vec never fails");
+                            let ver = rec.data().verify_signed_data(&dnskey, &buf);
+                            Ok(Some(SigOut { owner, class, ttl, f, sig, identity_buf: buf, identity_verify: ver }))
+                        }
+                    }
+                }
+            }
+        }
+    };
+
+    // --- refusals
+    if c.rtype == rr::RRSIG {
+        ctx.class("refused:rrsig-rrset");
+        match &result {
+            Err(SigningError::RrsigRrsMustNotBeSigned) => {}
+            Ok(None) if c.route == Route::Zone => {}
+            Ok(_) => vfail!("sign:rrsig-rrset-signed", "an RRSIG RRset was signed ({:?})", c.route),
+            Err(e) => vfail!("sign:rrsig-rrset-wrong-error", "{}", err_kind(e)),
+        }
+        ctx.nontrivial(&case);
+        return Ok(());
+    }
+    let backwards = rs::cmp(c.exp, c.inc) == Some(Ordering::Less);
+    if backwards {
+        ctx.class("refused:expiration-before-inception");
+        match &result {
+            Err(SigningError::InvalidSignatureValidityPeriod(..)) => {}
+            Ok(None) => {}
+            Ok(Some(_)) => vfail!("sign:expiration-before-inception-accepted", "inc={} exp={}", c.inc, c.exp),
+            Err(e) => vfail!("sign:expiration-before-inception-wrong-error", "{}", err_kind(e)),
+        }
+        return Ok(());
+    }
+    let so = match result {
+        Ok(Some(s)) => s,
+        Ok(None) => {
+            ctx.class("zone:rrset-not-signed-by-policy");
+            return Ok(());
+        }
+        Err(e) => vfail!("sign:refused-valid-rrset", "{} for inc={} exp={}", err_kind(&e), c.inc, c.exp),
+    };
+    if (c.exp as u64) < (c.inc as u64) {
+        ctx.class("period-across-2^32-wrap");
+    }
+    if rs::cmp(c.exp, c.inc).is_none() {
+        ctx.class("period-exactly-2^31");
+    }
+
+    // --- the RRSIG RR (RFC 4035 §2.2, RFC 4034 §3.1)
+    let want = rf::SigFields { type_covered: c.rtype, alg: ck.alg, labels: rf::rrsig_labels(&c.owner), orig_ttl: c.ttl, exp: c.exp, inc: c.inc, key_tag: want_tag, signer: c.signer.clone() };
+    vensure!(gn::lower(&so.owner) == gn::lower(&c.owner), "rrsig:owner", "RRSIG owner {} for RRset owner {}", gn::show(&so.owner), gn::show(&c.owner));
+    vensure!(so.class == c.class, "rrsig:class", "RRSIG class {} for RRset class {}", so.class, c.class);
+    vensure!(so.ttl == c.ttl, "rrsig:ttl", "RRSIG TTL {} for RRset TTL {}", so.ttl, c.ttl);
+    vensure!(so.f.type_covered == want.type_covered, "rrsig:type-covered", "{} want {}", so.f.type_covered, want.type_covered);
+    vensure!(so.f.alg == want.alg, "rrsig:algorithm", "{} want {}", so.f.alg, want.alg);
+    vensure!(so.f.labels == want.labels, "rrsig:labels", "labels field {} for owner {} (RFC 4034 3.1.3: {})", so.f.labels, gn::show(&c.owner), want.labels);
+    vensure!(so.f.orig_ttl == want.orig_ttl, "rrsig:original-ttl", "original TTL {} for RRset TTL {}", so.f.orig_ttl, want.orig_ttl);
+    vensure!(so.f.exp == want.exp && so.f.inc == want.inc, "rrsig:validity-period", "inc/exp {}/{} want {}/{}", so.f.inc, so.f.exp, want.inc, want.exp);
+    vensure!(so.f.key_tag == want.key_tag, "rrsig:key-tag", "key tag {} want {}", so.f.key_tag, want.key_tag);
+    vensure!(gn::lower(&so.f.signer) == gn::lower(&want.signer), "rrsig:signer-name", "signer {} want {}", gn::show(&so.f.signer), gn::show(&want.signer));
+    vensure!(Some(so.sig.len()) == rf::sig_len(ck.alg, &ck.pubkey), "rrsig:signature-length", "{} octets for algorithm {}", so.sig.len(), ck.alg);
+
+    // --- the signed octets
+    let ref_rrs: Vec<rf::RR> = distinct.iter().map(|r| r.rr()).collect();
+    let ref_sd = match rf::signed_data(&want, &ref_rrs) {
+        Ok(x) => x,
+        Err(e) => vfail!("selfcheck:reference-signed-data", "{e}"),
+    };
+    match rf::verify(ck.alg, &ck.pubkey, &ref_sd, &so.sig) {
+        Ok(true) => {}
+        Ok(false) => vfail!(format!("sign:signature-not-over-rfc4034-octets:{}", rr::mnemonic(c.rtype)), "the signature does not verify (ring, raw key) over the RFC 4034 3.1.8.1 octets; library's own reconstruction {} the reference\n  reference: {}\n  library:   {}", if so.identity_buf == ref_sd { "equals" } else { "differs from" }, hexs(&ref_sd), hexs(&so.identity_buf)),
+        Err(e) => vfail!("selfcheck:reference-verify", "{e}"),
+    }
+    vensure!(so.identity_buf == ref_sd, format!("signed_data:differs-from-rfc4034:{}", rr::mnemonic(c.rtype)), "signed_data() on the signer's own input differs from the reference at octet {:?}", first_diff(&so.identity_buf, &ref_sd));
+    vensure!(so.identity_verify.is_ok(), "verify:own-signature-rejected", "verify_signed_data on the signer's input: {:?}", so.identity_verify);
+
+    // --- legitimate resolver transformations
+    let tmask = c.tmask;
+    let mut recv: Vec<WireRR> = distinct.clone();
+    let mut applied: Vec<&'static str> = vec![];
+    if tmask & 1 != 0 && recv.len() >= 2 {
+        for i in (1..recv.len()).rev() {
+            let j = pick(u, i + 1);
+            recv.swap(i, j);
+        }
+        if recv != distinct {
+            applied.push("reorder");
+        }
+    }
+    if tmask & 2 != 0 {
+        let before = recv.clone();
+        for r in recv.iter_mut() {
+            r.owner = gn::swap_case(&r.owner, u);
+        }
+        if recv != before {
+            applied.push("owner-case");
+        }
+    }
+    if tmask & 4 != 0 {
+        let before = recv.clone();
+        for r in recv.iter_mut() {
+            r.rdata = swap_case_embedded(u, r.rtype, &r.rdata);
+        }
+        if recv != before {
+            applied.push("embedded-name-case");
+        }
+    }
+    if tmask & 8 != 0 {
+        let same = flag(u);
+        let t0 = gm::ttl(u);
+        for r in recv.iter_mut() {
+            r.ttl = if same { t0 } else { gm::ttl(u) };
+        }
+        if recv.iter().any(|r| r.ttl != c.ttl) {
+            applied.push(if recv.iter().any(|r| r.ttl > c.ttl) { "ttl-raised" } else { "ttl-decremented" });
+        }
+    }
+    let mut sig_owner = c.owner.clone();
+    let mut expanded: Option<Labels> = None;
+    if is_wildcard(&c.owner) && tmask & 16 != 0 {
+        let ce: Labels = c.owner[1..].to_vec();
+        let mut e = ce.clone();
+        let k = 1 + pick(u, 3);
+        for _ in 0..k {
+            if 255 - gn::wire_len(&e) >= 2 && e.len() < 127 {
+                let room = (255 - gn::wire_len(&e) - 1).min(63);
+                let l = match pick(u, 4) {
+                    0 => b"*".to_vec(),
+                    1 => gn::label(u, room.min(9), false),
+                    _ => {
+                        let mut l = plain_label(u);
+                        l.truncate(room);
+                        l
+                    }
+                };
+                e.insert(0, l);
+            }
+        }
+        if e.len() > ce.len() {
+            for r in recv.iter_mut() {
+                // keep whatever case the previous step gave the closest encloser
+                let tail = r.owner[1..].to_vec();
+                r.owner = e[..e.len() - ce.len()].iter().cloned().chain(tail).collect();
+            }
+            sig_owner = e.clone();
+            expanded = Some(e);
+            applied.push("wildcard-expansion");
+        }
+    }
+    let mut sv = SigVal { f: so.f.clone(), sig: so.sig.clone() };
+    if tmask & 32 != 0 {
+        let s2 = gn::swap_case(&sv.f.signer, u);
+        if s2 != sv.f.signer {
+            sv.f.signer = s2;
+            applied.push("signer-name-case");
+        }
+    }
+    let compress = tmask & 64 != 0;
+    let parsed_form = tmask & 128 != 0 || compress;
+    let out = match lib_validate(u, &recv, &sv, &sig_owner, &dnskey, compress, parsed_form) {
+        Ok(o) => o,
+        Err(e) => vfail!("selfcheck:received-message-not-parsed", "{e}"),
+    };
+    if compress && out.pointers > 0 {
+        applied.push("name-compression");
+    }
+    for a in &applied {
+        ctx.class(format!("t:{a}"));
+    }
+    ctx.class(if parsed_form { "validate-input:ParsedName" } else { "validate-input:flat" });
+    // the reference over what the resolver holds must give the same octets
+    // (checks the transformations themselves)
+    let recv_rrs: Vec<rf::RR> = recv.iter().map(|r| r.rr()).collect();
+    match rf::signed_data(&want, &recv_rrs) {
+        Ok(x) => vensure!(x == ref_sd, "selfcheck:transformation-changes-reference-octets", "{applied:?}"),
+        Err(e) => vfail!("selfcheck:reference-signed-data", "{e}"),
+    }
+    let tsig = applied.join("+");
+    vensure!(out.buf == ref_sd, format!("signed_data:differs-after-transformation:{}", rr::mnemonic(c.rtype)), "after [{tsig}] (ParsedName={parsed_form}): first difference at {:?}", first_diff(&out.buf, &ref_sd));
+    vensure!(out.verify.is_ok(), "verify:rejected-after-transformation", "after [{tsig}]: {:?}", out.verify);
+    // closest encloser reported for expanded owners
+    if let Some(e) = &expanded {
+        let ce = gn::lower(&c.owner[1..].to_vec());
+        for got in &out.closest {
+            vensure!(got.as_ref().map(gn::lower) == Some(ce.clone()), "wildcard_closest_encloser:wrong", "owner {} labels {}: {:?}", gn::show(e), so.f.labels, got.as_ref().map(gn::show));
+        }
+    } else if !is_wildcard(&c.owner) {
+        for got in &out.closest {
+            vensure!(got.is_none(), "wildcard_closest_encloser:reported-for-exact-owner", "owner {}: {:?}", gn::show(&c.owner), got.as_ref().map(gn::show));
+        }
+    }
+    let nontrivial_shape = distinct.len() >= 2 || is_wildcard(&c.owner) || distinct.iter().any(|r| has_upper_embedded(r.rtype, &r.rdata));
+    if nontrivial_shape && !applied.is_empty() {
+        ctx.nontrivial(&case);
+    }
+
+    // --- alterations: each must make validation fail
+    for &alt_kind in &c.alts {
+        let mut rrs2 = recv.clone();
+        let mut sv2 = sv.clone();
+        let mut key2 = (ck.alg, ck.pubkey.clone());
+        let mut sig_owner2 = sig_owner.clone();
+        let Some(kind) = alter(u, alt_kind, c, &so, &mut rrs2, &mut sv2, &mut key2, &mut sig_owner2) else { continue };
+        // the alteration must change what the reference hashes, or the
+        // signature, or the key
+        let changed_data = match rf::signed_data(&sv2.f, &rrs2.iter().map(|r| r.rr()).collect::<Vec<_>>()) {
+            Ok(x) => x != ref_sd,
+            Err(_) => true,
+        };
+        vensure!(changed_data || sv2.sig != sv.sig || key2.1 != ck.pubkey || key2.0 != ck.alg, "selfcheck:alteration-without-effect", "{kind}");
+        let dk2 = Dnskey::new(flags, 3, alg_of(key2.0), key2.1.clone()).expect("short key");
+        let form = flag(u);
+        match lib_validate(u, &rrs2, &sv2, &sig_owner2, &dk2, false, form) {
+            Err(_) => {
+                // the altered RDATA is not accepted by the library's parser:
+                // the fault cannot be injected this way
+                ctx.class(format!("alt-not-injectable:{kind}"));
+            }
+            Ok(o) => {
+                ctx.class(format!("alt:{kind}"));
+                vensure!(o.verify.is_err(), format!("verify:accepted-after-alteration:{kind}"), "validation still succeeds after alteration {kind} (transformations [{tsig}]); signed data {} the original", if o.buf == ref_sd { "equals" } else { "differs from" });
+            }
+        }
+    }
+    Ok(())
+}
+
+fn hexs(b: &[u8]) -> String {
+    b.iter().take(400).map(|x| format!("{x:02x}")).collect()
+}
+
+fn first_diff(a: &[u8], b: &[u8]) -> Option<(usize, Option<u8>, Option<u8>, usize, usize)> {
+    let n = a.len().max(b.len());
+    (0..n).find(|&i| a.get(i) != b.get(i)).map(|i| (i, a.get(i).copied(), b.get(i).copied(), a.len(), b.len()))
+}
+
+/// Changes a name so that it is a different name (not a case variant).
+/// `from`: only labels at index >= from may be touched.
+fn alter_name(u: &mut Unstructured, n: &Labels, from: usize) -> Option<Labels> {
+    if n.len() <= from {
+        return None;
+    }
+    let mut out = n.clone();
+    let li = from + pick(u, n.len() - from);
+    let l = &mut out[li];
+    let bi = pick(u, l.len());
+    let old = l[bi];
+    let bit = 1u8 << pick(u, 8);
+    let mut new = old ^ bit;
+    if new.to_ascii_lowercase() == old.to_ascii_lowercase() {
+        new = old ^ 1; // case bit on a letter: change the letter instead
+    }
+    l[bi] = new;
+    if gn::lower(&out) == gn::lower(n) {
+        return None;
+    }
+    Some(out)
+}
+
+/// Applies one alteration; returns its kind, or None if it is not applicable
+/// to this case.
+fn alter(u: &mut Unstructured, kind: u8, c: &Case, so: &SigOut, rrs: &mut Vec<WireRR>, sv: &mut SigVal, key: &mut (u8, Vec<u8>), sig_owner: &mut Labels) -> Option<&'static str> {
+    let covered_from = |owner: &Labels| owner.len().saturating_sub(so.f.labels as usize);
+    Some(match (kind as usize * 20) >> 8 {
+        0 => {
+            sv.f.type_covered ^= 1 << pick(u, 16);
+            "rrsig-type-covered"
+        }
+        1 => {
+            // another algorithm number in the RRSIG; half of the time the
+            // DNSKEY claims the same (RSASHA256 <-> RSASHA512 share the key format)
+            let other = match sv.f.alg {
+                8 => 10,
+                10 => 8,
+                13 => 14,
+                14 => 13,
+                _ => 13,
+            };
+            sv.f.alg = other;
+            if flag(u) && (other == 8 || other == 10) {
+                key.0 = other;
+                "rrsig-and-dnskey-algorithm"
+            } else {
+                "rrsig-algorithm"
+            }
+        }
+        2 => {
+            let old = sv.f.labels;
+            let min_owner = rrs.iter().map(|r| r.owner.len()).min().unwrap_or(0) as u8;
+            sv.f.labels = match pick(u, 4) {
+                0 => old.wrapping_add(1),
+                1 => old.wrapping_sub(1),
+                2 => min_owner,
+                _ => old ^ (1 << pick(u, 8)),
+            };
+            if sv.f.labels == old {
+                sv.f.labels = old.wrapping_add(1);
+            }
+            "rrsig-labels"
+        }
+        3 => {
+            sv.f.orig_ttl ^= 1 << pick(u, 32);
+            "rrsig-original-ttl"
+        }
+        4 => {
+            sv.f.exp ^= 1 << pick(u, 32);
+            "rrsig-expiration"
+        }
+        5 => {
+            sv.f.inc ^= 1 << pick(u, 32);
+            "rrsig-inception"
+        }
+        6 => {
+            sv.f.key_tag ^= 1 << pick(u, 16);
+            "rrsig-key-tag"
+        }
+        7 => {
+            match alter_name(u, &sv.f.signer, 0) {
+                Some(n) => sv.f.signer = n,
+                None => {
+                    if gn::wire_len(&sv.f.signer) + 2 > 255 {
+                        return None;
+                    }
+                    sv.f.signer.insert(0, b"x".to_vec());
+                }
+            }
+            "rrsig-signer-name"
+        }
+        8 | 9 => {
+            // for ECDSA the signature is r | s, both fixed length: every bit
+            // is in r or in s
+            let i = pick(u, sv.sig.len());
+            sv.sig[i] ^= 1 << pick(u, 8);
+            if matches!(sv.f.alg, 13 | 14) {
+                if i < sv.sig.len() / 2 { "signature-bit-ecdsa-r" } else { "signature-bit-ecdsa-s" }
+            } else {
+                "signature-bit"
+            }
+        }
+        10 => {
+            if flag(u) {
+                sv.sig.pop();
+            } else {
+                sv.sig.push(byte(u));
+            }
+            "signature-length"
+        }
+        11 | 12 => {
+            let i = pick(u, key.1.len());
+            key.1[i] ^= 1 << pick(u, 8);
+            "public-key-bit"
+        }
+        13 | 14 => {
+            // one bit of one record's RDATA such that the RDATA stays well
+            // formed and its canonical form changes
+            let ri = pick(u, rrs.len());
+            let old = rrs[ri].rdata.clone();
+            if old.is_empty() {
+                return None;
+            }
+            let oldc = rr::canonical_rdata(c.rtype, &old).ok()?;
+            let mut done = false;
+            for _ in 0..8 {
+                let mut n = old.clone();
+                let i = pick(u, n.len());
+                n[i] ^= 1 << pick(u, 8);
+                match rr::canonical_rdata(c.rtype, &n) {
+                    Ok(nc) if nc != oldc => {
+                        rrs[ri].rdata = n;
+                        done = true;
+                        break;
+                    }
+                    _ => {}
+                }
+            }
+            if !done {
+                return None;
+            }
+            "rdata-bit"
+        }
+        15 => {
+            // owner: a label inside the covered part (what is left of the
+            // closest encloser of an expanded wildcard is not hashed)
+            let from = covered_from(&rrs[0].owner);
+            let from = if is_wildcard(&c.owner) && rrs[0].owner.len() == c.owner.len() && from == 0 { 1 } else { from };
+            let n = alter_name(u, &rrs[0].owner, from)?;
+            if is_wildcard(&c.owner) && gn::lower(&n[n.len() - so.f.labels as usize..].to_vec()) == gn::lower(&c.owner[1..].to_vec()) {
+                return None;
+            }
+            for r in rrs.iter_mut() {
+                r.owner = n.clone();
+            }
+            *sig_owner = n;
+            if is_wildcard(&c.owner) { "owner-not-under-closest-encloser" } else { "owner-label" }
+        }
+        16 => {
+            // owner gains or loses a label
+            let o = rrs[0].owner.clone();
+            let n: Labels = if flag(u) && !is_wildcard(&c.owner) && gn::wire_len(&o) + 2 <= 255 && o.len() < 127 {
+                let mut n = o.clone();
+                n.insert(0, if flag(u) { b"*".to_vec() } else { b"x".to_vec() });
+                n
+            } else if o.len() > covered_from(&o) && !o.is_empty() {
+                // drop the rightmost-but-root label: the covered suffix changes
+                let mut n = o.clone();
+                n.pop();
+                if is_wildcard(&c.owner) && n.len() >= so.f.labels as usize && gn::lower(&n[n.len() - so.f.labels as usize..].to_vec()) == gn::lower(&c.owner[1..].to_vec()) {
+                    return None;
+                }
+                n
+            } else {
+                return None;
+            };
+            if gn::lower(&n) == gn::lower(&o) {
+                return None;
+            }
+            for r in rrs.iter_mut() {
+                r.owner = n.clone();
+            }
+            *sig_owner = n;
+            "owner-label-count"
+        }
+        17 => {
+            // type of the records (to a code whose RDATA is opaque, so that
+            // any RDATA stays well formed)
+            let mut t = [65280u16, 99, 1234][pick(u, 3)];
+            if t == c.rtype {
+                t = 65281;
+            }
+            for r in rrs.iter_mut() {
+                r.rtype = t;
+            }
+            "record-type"
+        }
+        18 => {
+            let bit = 1u16 << pick(u, 16);
+            for r in rrs.iter_mut() {
+                r.class ^= bit;
+            }
+            "record-class"
+        }
+        _ => {
+            if flag(u) && rrs.len() >= 2 {
+                let i = pick(u, rrs.len());
+                rrs.remove(i);
+                "record-removed"
+            } else {
+                // a record whose canonical RDATA is not in the set
+                let have: Vec<Vec<u8>> = rrs.iter().filter_map(|r| rr::canonical_rdata(r.rtype, &r.rdata).ok()).collect();
+                let mut added = false;
+                for _ in 0..4 {
+                    let rd = grd::rdata(u, c.rtype, &[c.owner.clone()], grd::Opts { plain_names: true, max_blob: 24 });
+                    if let Ok(cn) = rr::canonical_rdata(c.rtype, &rd) {
+                        if !have.contains(&cn) {
+                            let mut r = rrs[0].clone();
+                            r.rdata = rd;
+                            let at = pick(u, rrs.len() + 1);
+                            rrs.insert(at, r);
+                            added = true;
+                            break;
+                        }
+                    }
+                }
+                if !added {
+                    return None;
+                }
+                "record-added"
+            }
+        }
+    })
+}
+
+//------------ key tags and DS digests --------------------------------------------------------------------
+
+fn run_keytag(data: &[u8], ctx: &mut Ctx) -> CaseResult {
+    let mut u = Unstructured::new(data);
+    let u = &mut u;
+    let flags = match pick(u, 4) {
+        0 => [0u16, 256, 257, 0xFFFF, 0x8000, 385][pick(u, 6)],
+        _ => u16_(u),
+    };
+    let proto = if chance(u, 200) { 3 } else { byte(u) };
+    let alg = match pick(u, 4) {
+        0 => [1u8, 3, 5, 7, 8, 10, 12, 13, 14, 15, 16, 253, 254, 255, 0][pick(u, 15)],
+        1 => [8u8, 13, 15][pick(u, 3)],
+        _ => byte(u),
+    };
+    // public key: lengths 0, odd, even, up to the RDLENGTH limit; fills that
+    // make the 16-bit sums overflow into the carry
+    let len = match pick(u, 10) {
+        0 => pick(u, 4),
+        1 => 32,
+        2 => 64 + pick(u, 2),
+        3 => 255 + pick(u, 4),
+        4 => 65531 - pick(u, 3),
+        5 => 2000 + pick(u, 3000),
+        _ => pick(u, 600),
+    };
+    let fill = pick(u, 4);
+    let seed = u64_(u);
+    let mut x = seed | 1;
+    let key: Vec<u8> = (0..len)
+        .map(|i| match fill {
+            0 => 0xFF,
+            1 => {
+                if i < 64 { byte(u) } else { 0xFF }
+            }
+            2 => {
+                x ^= x << 13;
+                x ^= x >> 7;
+                x ^= x << 17;
+                x as u8
+            }
+            _ => {
+                if i < 200 { byte(u) } else { (i * 31) as u8 }
+            }
+        })
+        .collect();
+    let owner = if flag(u) { gn::name(u, false) } else { gn::swap_case(&vec![b"Example".to_vec(), b"COM".to_vec()], u) };
+    let rd = rf::dnskey_rdata(flags, proto, alg, &key);
+    let dk = match Dnskey::new(flags, proto, alg_of(alg), key.clone()) {
+        Ok(d) => d,
+        Err(_) => vfail!("dnskey:new-refuses-rdata-that-fits", "{} octets of RDATA", rd.len()),
+    };
+    // the carry matters when the 32-bit sum exceeds 16 bits
+    let mut ac: u64 = 0;
+    for (i, b) in rd.iter().enumerate() {
+        ac += if i & 1 == 1 { *b as u64 } else { (*b as u64) << 8 };
+    }
+    if ac > 0xFFFF && alg != 1 {
+        ctx.class("keytag:carry");
+        if ((ac & 0xFFFF) + (ac >> 16)) > 0xFFFF {
+            ctx.class("keytag:carry-out-of-fold");
+        }
+    }
+    if key.len() % 2 == 1 {
+        ctx.class("keytag:odd-length");
+    }
+    if alg == 1 {
+        ctx.class("keytag:algorithm-1");
+    }
+    ctx.class(format!("keylen:{}", match key.len() { 0 => "0", 1..=63 => "<64", 64..=599 => "<600", 600..=9999 => "<10k", _ => ">=10k" }));
+    ctx.nontrivial(&(flags, proto, alg, &key, &owner));
+    ctx.sample(|| format!("flags={flags} proto={proto} alg={alg} keylen={} owner={}", key.len(), gn::show(&owner)));
+    match rf::key_tag(&rd) {
+        Some(want) => vensure!(dk.key_tag() == want, if alg == 1 { "keytag:algorithm-1-differs-from-appendix-b1" } else { "keytag:differs-from-appendix-b" }, "flags={flags} proto={proto} alg={alg} keylen={}: key_tag() = {}, Appendix B = {want}", key.len(), dk.key_tag()),
+        None => {
+            let _ = dk.key_tag(); // undefined by the RFC; must not panic
+        }
+    }
+    let name = gn::to_name(&owner);
+    for (dt, lib_dt) in [(1u8, DigestAlgorithm::SHA1), (2, DigestAlgorithm::SHA256), (4, DigestAlgorithm::SHA384)] {
+        let want = rf::ds_digest(&owner, &rd, dt).unwrap();
+        match dk.digest(&name, lib_dt) {
+            Ok(d) => vensure!(d.as_ref() == &want[..], "ds-digest:differs-from-rfc4034-5.1.4", "digest type {dt}, owner {}", gn::show(&owner)),
+            Err(e) => vfail!("ds-digest:supported-type-refused", "digest type {dt}: {e}"),
+        }
+    }
+    // the digest does not depend on the case of the owner
+    let name2 = gn::to_name(&gn::swap_case(&owner, u));
+    let a = dk.digest(&name, DigestAlgorithm::SHA256).map(|d| d.as_ref().to_vec());
+    let b = dk.digest(&name2, DigestAlgorithm::SHA256).map(|d| d.as_ref().to_vec());
+    vensure!(a.ok() == b.ok(), "ds-digest:depends-on-owner-case", "owner {}", gn::show(&owner));
+    // digest types without an implementation are refused, not mis-computed
+    let other = [3u8, 0, 5, 6, 255][pick(u, 5)];
+    vensure!(dk.digest(&name, DigestAlgorithm::from_int(other)).is_err(), "ds-digest:unknown-type-accepted", "digest type {other}");
+    Ok(())
+}
+
+//------------ fixture sweep -----------------------------------------------------------------------------------
+
+fn n_fixtures(_thorough: bool) -> u64 {
+    keys::FIXTURES.len() as u64
+}
+
+fn run_fixture(data: &[u8], ctx: &mut Ctx) -> CaseResult {
+    let i = data.first().copied().unwrap_or(0) as usize % keys::FIXTURES.len();
+    if i == 0 {
+        if let Err(e) = rf::self_test() {
+            vfail!("selfcheck:reference-vectors", "{e}");
+        }
+        ctx.class("reference-self-test");
+    }
+    let l = &keys::loaded()[i];
+    ctx.sample(|| format!("fixture {}", l.fx.name));
+    ctx.nontrivial(&l.fx.name);
+    ctx.class(format!("fixture-alg:{}", l.kf.alg));
+    // library parse == independent parse
+    let d = l.lib.data();
+    vensure!(d.flags() == l.kf.flags && d.protocol() == l.kf.proto && d.algorithm().to_int() == l.kf.alg && d.public_key().as_slice() == &l.kf.key[..], "fixtures:parse_from_bind-differs", "{}", l.fx.name);
+    vensure!(gn::lower(&gn::from_name(l.lib.owner())) == gn::lower(&l.kf.owner), "fixtures:parse_from_bind-owner", "{}", l.fx.name);
+    let rd = rf::dnskey_rdata(l.kf.flags, l.kf.proto, l.kf.alg, &l.kf.key);
+    vensure!(rf::key_tag(&rd) == Some(l.fx.file_tag), "selfcheck:reference-key-tag-vs-file-name", "{}: {:?}", l.fx.name, rf::key_tag(&rd));
+    vensure!(d.key_tag() == l.fx.file_tag, "keytag:differs-from-key-file-name", "{}: key_tag() = {}", l.fx.name, d.key_tag());
+    if let Some(ds) = l.fx.ds_text {
+        let ds = rf::parse_ds_file(ds);
+        vensure!(!ds.is_empty(), "selfcheck:ds-file", "{}", l.fx.name);
+        for x in ds {
+            vensure!(x.key_tag == l.fx.file_tag && x.alg == l.kf.alg, "selfcheck:ds-file", "{}", l.fx.name);
+            let Some(want) = rf::ds_digest(&l.kf.owner, &rd, x.digest_type) else { continue };
+            vensure!(want == x.digest, "selfcheck:reference-ds-vs-ds-file", "{} digest type {}", l.fx.name, x.digest_type);
+            match d.digest(l.lib.owner(), DigestAlgorithm::from_int(x.digest_type)) {
+                Ok(got) => vensure!(got.as_ref() == &x.digest[..], "ds-digest:differs-from-ds-file", "{} digest type {}", l.fx.name, x.digest_type),
+                Err(e) => vfail!("ds-digest:supported-type-refused", "{}: {e}", l.fx.name),
+            }
+            ctx.class(format!("ds-file-digest-type:{}", x.digest_type));
+        }
+    }
+    // loadability: the ring backend documents RSASHA256 (>= 2048 bit),
+    // RSASHA512, both ECDSA curves and Ed25519
+    if l.fx.signs {
+        vensure!(l.pair.is_some(), "keys:fixture-not-loadable", "{}: {:?}", l.fx.name, l.pair_err);
+        let p = l.pair.as_ref().unwrap();
+        vensure!(p.algorithm().to_int() == l.kf.alg, "keys:keypair-algorithm", "{}", l.fx.name);
+        vensure!(p.dnskey() == *d, "keys:dnskey-of-keypair-differs-from-key-file", "{}", l.fx.name);
+        // raw sign / verify round trip with both verifiers
+        let msg = b"C12 fixture round trip";
+        let sig = match p.sign_raw(msg) {
+            Ok(s) => s,
+            Err(_) => vfail!("keys:sign_raw-fails", "{}", l.fx.name),
+        };
+        vensure!(sig.algorithm().to_int() == l.kf.alg, "keys:signature-algorithm", "{}", l.fx.name);
+        vensure!(rf::verify(l.kf.alg, &l.kf.key, msg, sig.as_ref()) == Ok(true), "keys:sign_raw-not-verifiable", "{}", l.fx.name);
+        ctx.class("fixture-signs");
+    } else {
+        ctx.class(if l.pair.is_some() { "fixture-unexpectedly-loadable" } else { "fixture-not-for-ring-signing" });
+    }
+    Ok(())
+}
+
+//------------ registration -----------------------------------------------------------------------------------------
+
+fn health(c: &BTreeMap<String, u64>, thorough: bool) -> Result<(), String> {
+    let need = |k: &str, n: u64| -> Result<(), String> {
+        if c.get(k).copied().unwrap_or(0) < n {
+            Err(format!("class {k} starved ({} < {n})", c.get(k).copied().unwrap_or(0)))
+        } else {
+            Ok(())
+        }
+    };
+    let s = if thorough { 10 } else { 1 };
+    for a in [8, 10, 13, 14, 15] {
+        need(&format!("alg:{a}"), 200 * s)?;
+    }
+    for t in ["reorder", "owner-case", "embedded-name-case", "ttl-decremented", "ttl-raised", "wildcard-expansion", "name-compression", "signer-name-case"] {
+        need(&format!("t:{t}"), 100 * s)?;
+    }
+    for k in [
+        "alt:rrsig-type-covered", "alt:rrsig-algorithm", "alt:rrsig-labels", "alt:rrsig-original-ttl", "alt:rrsig-expiration", "alt:rrsig-inception", "alt:rrsig-key-tag", "alt:rrsig-signer-name",
+        "alt:signature-bit", "alt:signature-bit-ecdsa-r", "alt:signature-bit-ecdsa-s", "alt:public-key-bit", "alt:rdata-bit", "alt:owner-label", "alt:owner-not-under-closest-encloser", "alt:owner-label-count", "alt:record-type",
+        "alt:record-class", "alt:record-removed", "alt:record-added",
+    ] {
+        need(k, 30 * s)?;
+    }
+    for k in ["owner:wildcard", "owner:root", "owner:apex", "owner:deep-127", "owner:wildcard-127", "owner:mixed-case", "refused:rrsig-rrset", "refused:expiration-before-inception", "period-across-2^32-wrap", "validate-input:ParsedName", "validate-input:flat", "sign-input:ParsedName", "route:SignRrset", "route:SortedIn", "route:SortedRecords", "route:Zone", "sign:duplicates-given-to-SortedRecords", "keytag:carry", "keytag:carry-out-of-fold", "keytag:odd-length", "fixture-signs", "reference-self-test"] {
+        need(k, if k.starts_with("fixture") || k.starts_with("reference") { 1 } else { 30 * s })?;
+    }
+    for t in rr::ZONE_TYPES {
+        if *t != rr::RRSIG {
+            need(&format!("type:{}", rr::mnemonic(*t)), 20 * s)?;
+        }
+    }
+    Ok(())
+}
 
 pub fn prop() -> Option<Prop> {
-    None
+    Some(Prop {
+        id: "C12",
+        rule: "sign-verify: a generated RRset (owner shape, type over all zone types + unknown codes, class, TTL, 1..8 records pairwise different as DNS data, validity period, key/algorithm, signer route) is non-trivial iff it has >= 2 records or a wildcard owner or an upper-case letter in an embedded name that RFC 6840 5.1 lists, AND at least one resolver-side transformation was really applied (the received RRset differs from the signed one); distinct by (decoded case, transformation mask). keytag-ds cases are distinct by (flags, protocol, algorithm, key, owner).",
+        assumptions: &[
+            "trusted: ring::digest and ring::signature primitives (shared with the library's ring backend); the reference builds the signed octets, parses the public key field and calls ring itself",
+            "fixture keys from /repo/test-data/dnssec-keys (one key per algorithm; ECDSA signatures use ring's SystemRandom, the verdicts do not depend on the random nonce)",
+            "an RRset handed to the signer has no two records that are equal as DNS data (RFC 2181 5: that is not an RRset; names compared case-insensitively, also where the DNSSEC canonical form keeps the case); duplicates (exact, or differing in the case of owner / RFC 6840 5.1 names) are only given to SortedRecords, which removes them",
+            "sign_sorted_rrset_in gets its records in RFC 4034 6.3 order (documented precondition), one TTL per RRset (Rrset::new panics otherwise, documented)",
+            "records are built by the library's message parser from generated wire data; RDATA the parser refuses is out of scope here (C05)",
+        ],
+        subchecks: vec![
+            SubCheck::new("sign-verify", run_sign, 100_000, 400_000, 1200),
+            SubCheck::new("keytag-ds", run_keytag, 30_000, 300_000, 400),
+            SubCheck::sweep("fixtures", run_fixture, n_fixtures),
+        ],
+        health: Some(health),
+        extra: None,
+    })
 }
